@@ -279,6 +279,11 @@ class FileSystem(object):
         # Remove leading '/' if any
         path = path.lstrip(path_sep)
 
+        # A relative path cannot climb above the sandbox root
+        dotdot = b'..' if path_bytes else '..'
+        while path == dotdot or path.startswith(dotdot + path_sep):
+            path = path[len(dotdot):].lstrip(path_sep)
+
         base_path = os.path.abspath(_convert(self.base_path))
         out_path = os.path.join(base_path, path)
         assert out_path.startswith(base_path + path_sep)
